@@ -3,7 +3,14 @@
 For each instance the exact dyadic images of the float inputs handed to toqito define the instance; an exact
 feasible POVM (lower bound) and an exact dual-feasible operator (upper bound) are built by untrusted means
 and accepted only by the verified Lean checker (theorems checkMinErrPrimal_sound / checkMinErrDual_sound /
-checkUnamb*_sound in lean/Toq/Properties/C10.lean).  The value returned by toqito must lie in [lo - tau, hi + tau]."""
+checkUnamb*_sound in lean/Toq/Properties/C10.lean).  The value returned by toqito must lie in [lo - tau, hi + tau].
+
+On top of the intervals, the closed forms proved for all instances in Properties/C10.lean are compared with BOTH the certified
+interval (a disagreement there is a harness error) and toqito's returned values: Helstrom for two states (helstrom_isLUB_normalised),
+1 for mutually orthogonal states (minErr_orthogonal_eq_one), >= largest prior (minErr_ge_prior), <= 1 (minErr_le_one), >= the success
+probability of toqito's pretty good measurement (pgm_le_dual), unambiguous value 1 - |<psi|phi>| for two equiprobable pure states
+(unamb_two_unit_vectors), 0 for linearly dependent pure states (unamb_value_zero_of_all_dependent), within [0, 1]
+(unamb_zero_feasible / unamb_le_sum_prior) and <= the min-error value (cited reduction)."""
 from __future__ import annotations
 
 import warnings
@@ -17,11 +24,14 @@ from .. import qgen
 RULE = ("ensembles (2..5 states, dimension 2..4, real/complex integer amplitudes normalised in floating point, vectors as 1-D / column arrays or "
         "density matrices, dyadic priors) from the seeded generator x strategy x primal/dual form x solver; per instance the Lean checker certifies "
         "[lo, hi] for the exact image of the inputs; non-trivial = certified interval clear of the trivial bounds (max prior + 1e-2 <= value <= 1 - 1e-2 "
-        "for min-error; 1e-2 <= value for unambiguous) ; distinct = hash of the instance and call form")
+        "for min-error; 1e-2 <= value for unambiguous) ; distinct = hash of the instance and call form; a second, smaller stream forces the "
+        "closed-form families (equiprobable pure pairs, linearly dependent sets, orthonormal sets) through the same worker")
 ASSUMPTIONS = [
     "toqito computes with the float inputs it is given; the instance certified is their exact dyadic image (difference <= 1e-15 relative)",
     "tolerance 2e-5 on CVXOPT-solved values (declared in DESIGN.md 4.4), 1e-3 for SCS",
     "the Gram-matrix program is taken as the definition of the unambiguous-discrimination value (Eldar's reduction is cited, not proved)",
+    "closed forms are evaluated in float64 on the same float inputs (eigvalsh / inner products, error <= 1e-12) and compared with tolerance tau",
+    "pretty good measurement: compared only when sum_i p_i rho_i has smallest eigenvalue >= 1e-6 (P^(-1/2) exists; C19 covers the PGM itself)",
 ]
 TAU = {"cvxopt": 2e-5, "scs": 1e-3}
 WIDTH_OK = 1e-4  # certified intervals wider than this are counted as uncertified (never a violation by themselves)
@@ -31,12 +41,24 @@ WIDTH_OK = 1e-4  # certified intervals wider than this are counted as uncertifie
 # instance generation (in the parent, so every random choice derives from the one seeded generator)
 
 
-def gen_instance(rng, quick):
+def gen_instance(rng, quick, family=None):
+    """family: None (general stream) or one of "pair" (two equiprobable pure states), "dependent", "orthogonal" (closed-form stream)"""
     d = int(rng.choice([2, 2, 3, 3, 4]))
     k = int(rng.choice([2, 2, 3, 3, 4, 5]))
     cplx = bool(rng.integers(2))
     form = str(rng.choice(["vec1d", "col", "dm", "dm_mixed"]))
     kind = str(rng.choice(["random", "random", "random", "orthogonal", "dependent", "near"]))
+    if family is not None:
+        form = str(rng.choice(["vec1d", "col", "vec1d", "col", "dm"]))
+        if family == "pair":
+            k = 2
+            kind = str(rng.choice(["random", "random", "near"]))
+        elif family == "dependent":
+            k = int(rng.choice([3, 3, 4, 5]))
+            kind = "dependent"
+        else:
+            k = int(rng.integers(2, d + 1))
+            kind = "orthogonal"
     vecs = []
     if kind == "orthogonal" and k <= d:
         U = qgen.cayley_unitary(rng, d, cplx)
@@ -56,6 +78,8 @@ def gen_instance(rng, quick):
         kind = "random"
         vecs = [qgen.unit(qgen.int_vector(rng, d, cplx)) for _ in range(k)]
     probs = qgen.dyadic_probs(rng, k)
+    if family == "pair":
+        probs = [0.5, 0.5]
     if form == "dm_mixed":
         states = [qgen.rand_density(rng, d, int(rng.integers(1, d + 1)), cplx) for _ in range(k)]
     elif form == "dm":
@@ -66,8 +90,10 @@ def gen_instance(rng, quick):
         states = [v for v in vecs]
     if not cplx:
         states = [np.real(s) for s in states]
+    if not cplx:
+        vecs = [np.real(v) for v in vecs]
     return {"d": d, "k": k, "cplx": cplx, "form": form, "kind": kind, "states": [np.asarray(s).tolist() if False else s for s in states],
-            "probs": probs, "probs_given": bool(rng.integers(4) > 0) or len(set(probs)) > 1}
+            "vecs": (None if form == "dm_mixed" else vecs), "probs": probs, "probs_given": bool(rng.integers(4) > 0) or len(set(probs)) > 1}
 
 
 # ------------------------------------------------------------------------------------------------
@@ -229,10 +255,18 @@ def work(task, res: Result):
     if lo is None or hi is None or hi - lo > WIDTH_OK:
         res.count("uncertified/minerr:" + ";".join(why)[:60])
         lo_u = hi_u = None
-    pure = inst["form"] != "dm_mixed"
+    # state vectors of a pure ensemble: the inputs themselves (vector forms) or the generator's vectors behind form "dm"
+    # (replayed "dm" records carry no vectors: no Gram-form interval then)
+    if inst["form"] in ("vec1d", "col"):
+        vec_list = [np.asarray(s).reshape(-1) for s in states]
+    elif inst["form"] == "dm" and inst.get("vecs") is not None:
+        vec_list = [np.asarray(v).reshape(-1) for v in inst["vecs"]]
+    else:
+        vec_list = None
+    pure = vec_list is not None
     ulo = uhi = None
     if pure:
-        V = DM.exact_float(np.stack([np.asarray(s).reshape(-1) for s in states], axis=1))
+        V = DM.exact_float(np.stack(vec_list, axis=1))
         try:
             q_ref, Z_ref = _solve_unamb_ref((V.H() @ V).to_float(), probs)
             ulo, uhi, uwhy = certify_unamb(drv, V, probs, q_ref, Z_ref)
@@ -242,6 +276,7 @@ def work(task, res: Result):
             res.count("uncertified/unamb")
             ulo = uhi = None
     maxp = max(probs)
+    got = {}  # (strategy, primal_dual, solver) -> value returned by toqito (calls that returned and passed the interval check)
     for (strategy, pd, solver) in calls:
         if strategy == "unambiguous" and inst["form"] not in ("vec1d", "col"):
             continue  # the Gram-matrix program is defined for state vectors only
@@ -270,11 +305,13 @@ def work(task, res: Result):
             thm = "checkUnambPrimal_sound / checkUnambDual_sound"
         res.case(desc, nontriv, f"{strategy}/{pd}/{solver}/{inst['form']}/{'c' if inst['cplx'] else 'r'}/{inst['kind']}")
         if L is None or H is None:
+            got[(strategy, pd, solver)] = float(val)
             continue
         if not (L - tau <= float(val) <= H + tau):
             res.violation(f"state_distinguishability({strategy},{pd},{solver}) = {float(val):.8f} outside the certified optimum [{L:.8f}, {H:.8f}]",
                           {"function": "state_distinguishability", "args": desc, "impl": float(val), "certified": [L, H], "tau": tau, "theorem": thm, "cplx": inst["cplx"]})
             continue
+        got[(strategy, pd, solver)] = float(val)
         # returned measurement (min-error): a valid POVM attaining the value
         if strategy == "min_error":
             try:
@@ -300,10 +337,92 @@ def work(task, res: Result):
             res.count("closed-form/orthogonal")
             if hi < 1 - 1e-6:
                 res.violation("certified optimum below 1 for mutually orthogonal states (harness error)", {"function": "orthogonal", "args": base, "certified": [lo, hi]})
+        res.count("closed-form/max-prior")
         if hi < maxp - 1e-9:
             res.violation("certified optimum below the largest prior (harness error)", {"function": "maxprior", "args": base, "certified": [lo, hi]})
-        if ulo is not None and ulo > hi + 1e-6:
-            res.violation("unambiguous value exceeds the min-error value (harness error)", {"function": "unamb_le_minerr", "args": base, "certified": [lo, hi], "unamb": [ulo, uhi]})
+        if lo > 1 + 1e-9:
+            res.violation("certified optimum above 1 (harness error)", {"function": "le_one", "args": base, "certified": [lo, hi]})
+        if ulo is not None:
+            res.count("closed-form/unamb-le-minerr")
+            if ulo > hi + 1e-6:
+                res.violation("unambiguous value exceeds the min-error value (harness error)", {"function": "unamb_le_minerr", "args": base, "certified": [lo, hi], "unamb": [ulo, uhi]})
+    # ---- closed forms on the certified interval (unambiguous, Gram form)
+    cf_unamb = None  # (name, value, theorem)
+    if pure:
+        G_f = (V.H() @ V).to_float()
+        if k == 2 and probs[0] == probs[1]:
+            cf_unamb = ("unamb-two-state", 1.0 - abs(G_f[0, 1]), "unamb_two_unit_vectors")
+        elif inst["kind"] == "dependent":
+            cf_unamb = ("unamb-dependent-zero", 0.0, "unamb_value_zero_of_all_dependent")
+        if cf_unamb is not None and ulo is not None:
+            res.count("closed-form/" + cf_unamb[0])
+            if not (ulo - 2e-5 <= cf_unamb[1] <= uhi + 2e-5):
+                res.violation(f"certified unambiguous optimum disagrees with the closed form {cf_unamb[0]} (harness or closed form wrong)",
+                              {"function": cf_unamb[0], "args": base, "closed_form": cf_unamb[1], "certified": [ulo, uhi], "theorem": cf_unamb[2]})
+        if ulo is not None and (ulo < -1e-9 or ulo > 1 + 1e-9):
+            res.violation("certified unambiguous optimum outside [0, 1] (harness error)", {"function": "unamb_range", "args": base, "certified": [ulo, uhi]})
+    # ---- pretty good measurement (toqito's) against the certified interval: P_pgm <= P_opt (pgm_le_dual), P_opt^2 <= P_pgm (Barnum-Knill, cited)
+    pgm_val = None
+    try:
+        from toqito.measurements import pretty_good_measurement
+        Pavg = sum(probs[i] * rhos_f[i] for i in range(k))
+        if float(np.min(np.linalg.eigvalsh((Pavg + Pavg.conj().T) / 2))) >= 1e-6:
+            Gs = [np.asarray(g, dtype=complex) for g in pretty_good_measurement([np.asarray(s) for s in states], list(probs))]
+            if all(np.all(np.isfinite(g)) for g in Gs) and float(np.max(np.abs(sum(Gs) - np.eye(d)))) <= 1e-7:
+                pgm_val = float(sum(probs[i] * np.real(np.trace(rhos_f[i] @ Gs[i])) for i in range(k)))
+            else:
+                res.count("pgm/not-a-povm-numerically")
+        else:
+            res.count("pgm/singular-average-state-skipped")
+    except Exception as e:
+        res.count("pgm/raise:" + type(e).__name__)
+    if pgm_val is not None and lo is not None and hi is not None and hi - lo <= WIDTH_OK:
+        res.count("closed-form/pgm-le-opt")
+        if pgm_val > hi + 1e-6 or lo * lo > pgm_val + 1e-6 + 2 * WIDTH_OK:
+            res.violation(f"pretty good measurement's success probability {pgm_val:.8f} outside [P_opt^2, P_opt] for the certified optimum [{lo:.8f}, {hi:.8f}]",
+                          {"function": "pretty_good_measurement", "args": base, "pgm": pgm_val, "certified": [lo, hi], "theorem": "pgm_le_dual (upper); Barnum-Knill (lower, cited)"})
+    # ---- the same closed forms on the values toqito returned (tolerance of the solver; calls already reported above are not in `got`)
+    hel = None
+    if k == 2:
+        hel = 0.5 * (probs[0] + probs[1]) + 0.5 * float(np.sum(np.abs(np.linalg.eigvalsh(probs[0] * rhos_f[0] - probs[1] * rhos_f[1]))))
+    for (strategy, pd, solver), v in got.items():
+        tau = TAU.get(solver, 1e-3)
+        desc = dict(base, strategy=strategy, primal_dual=pd, solver=solver, probs_given=inst["probs_given"])
+        bad = []
+        if strategy == "min_error":
+            if hel is not None:
+                res.count("impl-closed-form/helstrom")
+                if abs(v - hel) > tau:
+                    bad.append(("Helstrom value", hel, "helstrom_isLUB_normalised"))
+            if inst["kind"] == "orthogonal" and inst["form"] != "dm_mixed":
+                res.count("impl-closed-form/orthogonal")
+                if abs(v - 1.0) > tau:
+                    bad.append(("1 (mutually orthogonal states)", 1.0, "minErr_orthogonal_eq_one"))
+            res.count("impl-closed-form/range")
+            if v < maxp - tau:
+                bad.append((">= largest prior", maxp, "minErr_ge_prior"))
+            if v > 1 + tau:
+                bad.append(("<= 1", 1.0, "minErr_le_one"))
+            if pgm_val is not None:
+                res.count("impl-closed-form/pgm-le-opt")
+                if pgm_val > v + tau:
+                    bad.append((">= pretty good measurement's success probability", pgm_val, "pgm_le_dual"))
+        else:
+            if cf_unamb is not None:
+                res.count("impl-closed-form/" + cf_unamb[0])
+                if abs(v - cf_unamb[1]) > tau:
+                    bad.append((cf_unamb[0], cf_unamb[1], cf_unamb[2]))
+            res.count("impl-closed-form/unamb-range")
+            if v < -tau or v > 1 + tau:
+                bad.append(("within [0, 1]", 1.0, "unamb_zero_feasible / unamb_le_sum_prior"))
+            me = [w for (st, _, _), w in got.items() if st == "min_error"]
+            if me:
+                res.count("impl-closed-form/unamb-le-minerr")
+                if v > max(me) + 2 * tau:
+                    bad.append(("<= min-error value (cited reduction)", max(me), "cited"))
+        for (name, ref, thm) in bad:
+            res.violation(f"state_distinguishability({strategy},{pd},{solver}) = {v:.8f} violates the closed form / bound: {name} = {ref:.8f}",
+                          {"function": "state_distinguishability", "args": desc, "impl": v, "closed_form": name, "reference": ref, "tau": tau, "theorem": thm, "cplx": inst["cplx"]})
 
 
 def work_invariance(task, res: Result):
@@ -347,6 +466,10 @@ def run(ctx, model_ok=True):
         inst = gen_instance(rng, quick)
         calls = [("min_error", "primal", "cvxopt"), ("min_error", "dual", "cvxopt"), ("unambiguous", "primal", "cvxopt"), ("unambiguous", "dual", "cvxopt")]
         tasks.append((inst, calls))
+    # closed-form stream: the families with a proved closed form, through the same worker
+    for i in range(24 if quick else 180):
+        inst = gen_instance(rng, quick, family=["pair", "dependent", "orthogonal"][i % 3])
+        tasks.append((inst, [("min_error", "primal", "cvxopt"), ("min_error", "dual", "cvxopt"), ("unambiguous", "primal", "cvxopt"), ("unambiguous", "dual", "cvxopt")]))
     run_pool(ctx, work, tasks)
     inv = []
     for i in range(24 if quick else 160):
